@@ -186,7 +186,7 @@ def _init_worker(fn_module, fn_name, repo):
     _worker_fn = getattr(importlib.import_module(fn_module), fn_name)
 
 
-class CaseTimeout(Exception):
+class CaseTimeout(BaseException):     # not an Exception: the replay code's own broad handlers must not swallow it
     pass
 
 
@@ -195,13 +195,19 @@ def _on_alarm(signum, frame):
 
 
 CASE_SECONDS = 180
+_hung = False
 
 
 def _run_batch(batch):
     import signal
+    global _hung
     out = []
     signal.signal(signal.SIGALRM, _on_alarm)
     for case in batch:
+        if _hung:
+            # one library call that never returned is a verdict; replaying thousands more at 3 minutes each is not
+            out.append({"n": 0, "keys": [], "validated": 0, "fails": [], "obs": {"not_replayed_after_a_hang": 1}})
+            continue
         try:
             signal.alarm(CASE_SECONDS)      # a replayed case takes milliseconds to seconds; a library call that never
             try:                            # returns (a lock held across a yield, an endless loop) must not hang the check
@@ -209,6 +215,7 @@ def _run_batch(batch):
             finally:
                 signal.alarm(0)
         except CaseTimeout as e:
+            _hung = True
             small = {k: v for k, v in case.items() if k != "rec"} if isinstance(case, dict) else {}
             out.append({"n": 1, "keys": [], "validated": 0,
                         "fails": [({"kind": "library-hung", "seconds": CASE_SECONDS},
